@@ -51,6 +51,9 @@ type roObject struct {
 	ops map[string]func() string
 }
 
+var largeOnce sync.Once
+var largeImage *testImage
+
 func roImage(variant string) *roObject {
 	imgs := getTestImages()
 	ti := imgs["I1"]
@@ -60,6 +63,17 @@ func roImage(variant string) *roObject {
 	}
 	file := ti.unsigned
 	switch variant {
+	case "large":
+		// more than 3 MiB of data behind the sections (a kernel image with an initrd appended), signed: whatever is done in chunks or in
+		// the background while hashing, the answers stay the same
+		largeOnce.Do(func() {
+			l := peLayout{bits: 64, lfanew: 64, secs: []peSec{{40, 1}, {24, 2}}, slack: 8, gappos: 1, trail: 3*1048576 + 5}
+			im := buildPE(l, "c19:large")
+			largeImage = &testImage{unsigned: im.b, img: im, layout: l, digest: independentDigest(im.b, im.cksum, im.dd4, len(im.b))}
+		})
+		ti = largeImage
+		dg = map[string][]byte{"m1": ti.digest}
+		file = attachSignatures(ti, mk("k1", "A"))
 	case "signed":
 		file = attachSignatures(ti, mk("k1", "A"))
 	case "twosigs":
@@ -103,6 +117,8 @@ func roImage(variant string) *roObject {
 		"Hash":  func() string { return dig(p.Hash(crypto.SHA256)) },
 		"Bytes": func() string { return dig(p.Bytes()) },
 		"Open":  func() string { b, _ := io.ReadAll(p.Open()); return dig(b) },
+		// writing the image out the usual way: io.Copy hands the work to the reader's own WriteTo when it has one
+		"OpenCopy": func() string { var w bytes.Buffer; io.Copy(&w, p.Open()); return dig(w.Bytes()) },
 		"Signatures": func() string {
 			sigs, err := p.Signatures()
 			var all []byte
